@@ -315,9 +315,12 @@ class Runner:
             shutil.rmtree(self.root, ignore_errors=True)
 
     def fresh_loader(self):
+        import ZConfig.loader
         if self.sc["kind"] == "schema":
-            import ZConfig.loader
             self.loader = ZConfig.loader.SchemaLoader()
+        else:
+            # one ConfigLoader object serves the faulted load and the fault-free load after it
+            self.cloader = ZConfig.loader.ConfigLoader(self.schema)
 
     def run(self, plan=None, conv=None):
         """-> outcome tuple; resets the tracking state first."""
@@ -328,7 +331,7 @@ class Runner:
         try:
             if sc["kind"] == "config":
                 import ZConfig.loader
-                loader = ZConfig.loader.ConfigLoader(self.schema)
+                loader = getattr(self, "cloader", None) or ZConfig.loader.ConfigLoader(self.schema)
                 if sc["entry"] == "url":
                     cfg, _h = loader.loadURL(self.main)
                 else:
